@@ -45,7 +45,8 @@ CaseClauses(c) ==
          \cup (IF x.p2 = 1 /\ ~NearT(c.pump2.tout, R(T2FLOW)) THEN {<<"C10.feed_temperature", "second_producer", c.mode>>} ELSE {})
        ELSE {}),
       (IF ~NearT(c.pump.tflow, R(TFLOW)) THEN {<<"C10.feed_temperature", x.pump, c.mode>>} ELSE {}),
-      (IF ~NearT(c.ts, TS(x)) THEN {<<"C10.supply_temperature", x.pump, c.mode>>} ELSE {})
+      (* (the supply pipe's decay factor is designed for the promised flows: only judged when they are promised) *)
+      (IF (\A i \in DOMAIN x.cons : Judged(c, i)) /\ ~NearT(c.ts, TS(x)) THEN {<<"C10.supply_temperature", x.pump, c.mode>>} ELSE {})
     }
 
 Init2 == ci = 0 /\ bad = {}
